@@ -149,11 +149,18 @@ func (p *exeParser) readField() (f *Field, err error) {
 	var b byte
 	var token string
 
-	token, err = p.readToken()
+	// The location of a field is where its name (or alias) starts. Take it
+	// before reading the token: that also reads the character after the
+	// token, which may be on the next line.
+	_, err = p.skipSpace()
+	line, col := p.line, p.col
+	if err == nil {
+		token, err = p.readToken()
+	}
 	if len(token) == 0 && err == nil {
 		err = parseError(p.line, p.col, "a field name can not be blank")
 	}
-	f = &Field{SelBase: SelBase{line: p.line, col: p.col - len(token)}}
+	f = &Field{SelBase: SelBase{line: line, col: col}}
 	if err == nil {
 		b, err = p.skipSpace()
 	}
